@@ -552,6 +552,12 @@ def r02_9_shared(repo: Repo, rep: Report):
 
     for f in (r19_1_insn_len, r19_2_scanner_decoder, r19_7_concreteness_predicate):
         f(repo, rep)
+    # state shared between sibling paths makes the sibling explored later skip alternatives the first one recorded (size
+    # candidates substituted by a stale constant) or assume axioms it never established (a copy that forgets `symbolic`):
+    # fork-copy completeness (shared with C20)
+    from hsa.rules.c20 import r20_1_fork_copies
+
+    r20_1_fork_copies(repo, rep)
 
 
 RULES.append(r02_9_shared)
